@@ -45,6 +45,11 @@ var c01Texts = map[string][]string{
 	"nonasc": {"üñï", "日本語", "😀"},
 	"mixed":  {"<a href='x'>&amp;\"q\"</a> ]]> ü "},
 	"ws":     {" ", "\n\t", "\u00a0", "  \n"},
+	// carriage returns and tabs (a parser normalises a literal CR / CRLF to LF: they only survive as references)
+	"ctrl": {"a\rb", "line1\r\nline2", "tab\there", "\r", "x\r\n", "\n\r"},
+	// markup-dense text (many quotes / ampersands / brackets: where an encoder might switch to CDATA), with and without CR
+	"dense": {"{\"a\":\"b\",\"c\":\"d\",\"e\":\"f\"}\r\n", "<p><b><i>&amp;&amp;&amp;&amp;</i></b></p>\r", "\"\"\"\"''''&&&&<<<<>>>>",
+		"Header: \"v\"; k=\"w\"; x=\"y\"\r\nNext: <a> <b> <c> ]]> end", "&&&&&&&&\r&&&&&&&&"},
 }
 
 type c01Gen struct {
